@@ -54,7 +54,7 @@ func (f *MakeSequence) Call(s *slip.Scope, args slip.List, depth int) (result sl
 	if v, ok := slip.GetArgsKeyValue(args[2:], slip.Symbol(":initial-element")); ok {
 		element = v
 	}
-	size := getFixnumArg(s, args[1], "size", depth)
+	size := slip.CheckDimension(s, depth, "size", args[1])
 	switch rt := args[0].(type) {
 	case slip.Symbol:
 		switch rt {
